@@ -611,7 +611,7 @@ func judgeRepr(c *GenCtx, ops []Op) []Diff {
 	// group ops of the repr family by expression + untyped document; within a group all outcomes must agree in value
 	groups := map[string][]Op{}
 	for _, op := range ops {
-		if op.Family != "repr" {
+		if !strings.HasPrefix(op.Family, "repr") {
 			continue
 		}
 		v, err := parseXJSON(op.Data)
